@@ -727,13 +727,654 @@ def classify_cache(line, out):
 
 
 # =====================================================================================
-# e2e (placeholder)
+# stream 4: cache file names (byte level)
 # =====================================================================================
+def gen_names(ctx):
+    rng = ctx.rng
+    lines = []
+    dirs = [b"/c", b"/c/", b"", b"/", b"/var/cache/lighttpd/compress", b"c//"]
+    paths = [b"/srv/www/a.txt", b"srv/a", b"/", b"", b"//x", b"/a-1-gzip", b"/a.txt-12-gzip.4711", b"/x.99"]
+    etags = [b'"12"', b'""', b'"1-gzip"', b'"12-gzip"', b'"12-x-gzip"', b'"4711-deflate"', b'W/"ab-gzip"', b'"a', b'ab']
+    for d in dirs:
+        for p_ in paths:
+            for e in etags:
+                lines.append("name %s %s %s %d" % (HX(d), HX(p_), HX(e), rng.choice([0, 1, 9, 10, 4711, 99999, 4194304])))
+    for _ in range(3000 if ctx.quick else 30000):
+        d = b"/" + bytes(rng.choice(b"abc/-.0") for _ in range(rng.randint(0, 6)))
+        p_ = bytes(rng.choice(b"abc/-.019") for _ in range(rng.randint(0, 10)))
+        e = b'"' + bytes(rng.choice(b"0123456789") for _ in range(rng.randint(1, 10))) + b"-" + rng.choice(LABELS) + b'"'
+        lines.append("name %s %s %s %d" % (HX(d), HX(p_), HX(e), rng.randint(0, 5000000)))
+    return lines
+
+
+def oracle_names(line, out):
+    if out in ("bad-op", "<crash>"):
+        return None
+    t = line.split(" ")
+    o = out.split(" ")
+    if len(o) != 2:
+        return "malformed observation"
+    fn, tmp = C.unhx(o[0]), C.unhx(o[1])
+    etag = C.unhx(t[3])
+    if not fn.endswith(b"-" + etag[1:-1]):
+        return "cache file name does not end in the entity tag"
+    if tmp == fn or not tmp.startswith(fn + b".") or not tmp[len(fn) + 1:].isdigit():
+        return "temporary cache file name is not <name>.<pid>"
+    return None
+
+
+# =====================================================================================
+# end-to-end: the real server
+# =====================================================================================
+from .. import e2e
+
+E2E_CONFS = {
+    # name: (lighttpd config, model cfg tokens: allowed, mimes, min, maxkb, cachedir)
+    "plain": ('server.stat-cache-engine = "disable"\n'
+              'deflate.mimetypes = ("text/")\n'
+              'deflate.allowed-encodings = ("gzip", "deflate")\n'
+              'deflate.min-compress-size = 0\n',
+              (HX(b"gzip") + "," + HX(b"deflate"), HX(b"text/"), 0, 131072, 0)),
+    "cache": ('server.stat-cache-engine = "disable"\n'
+              'deflate.mimetypes = ("text/")\n'
+              'deflate.allowed-encodings = ("gzip", "deflate")\n'
+              'deflate.min-compress-size = 0\n'
+              'deflate.cache-dir = "@ROOT@/cache"\n',
+              (HX(b"gzip") + "," + HX(b"deflate"), HX(b"text/"), 0, 131072, 1)),
+    "limits": ('server.stat-cache-engine = "disable"\n'
+               'deflate.mimetypes = ("text/plain")\n'
+               'deflate.max-compress-size = 64\n'
+               'deflate.cache-dir = "@ROOT@/cache"\n',
+               ("~", HX(b"text/plain"), 256, 64, 1)),
+    "all": ('deflate.mimetypes = ("")\n'
+            'deflate.allowed-encodings = ("deflate", "gzip")\n'
+            'deflate.compression-level = 9\n'
+            'deflate.min-compress-size = 1\n',
+            (HX(b"deflate") + "," + HX(b"gzip"), "-", 1, 131072, 0)),
+}
+CTYPE_OF = {".txt": b"text/plain", ".html": b"text/html", ".bin": b"application/octet-stream", ".css": b"text/css"}
+SIZES_Q = [0, 1, 255, 256, 257, 4095, 4096, 4097, 16383, 16384, 16385, 32767, 32768, 32769, 65535, 65536, 65537,
+           131071, 131072, 131073, 1048576]
+SIZES_T = SIZES_Q + [2, 100, 8191, 8192, 8193, 65536 * 2 - 1, 65536 * 2 + 1, 196608, 262144, 2097151, 2097152,
+                     2097153, 4194307]
+AE_Q = [b"gzip", b"deflate", b"gzip, deflate", b"deflate;q=1.0, gzip;q=0.5", b"x-gzip", b"gzip;q=0, deflate",
+        b"br, identity", b"*", b"deflate ;q=0 , gzip ; q=0.0"]
+
+
+def e2e_content(rng, kind, n):
+    if kind == "r":
+        return rng.randbytes(n)
+    if kind == "z":
+        return b"\0" * n
+    words = [b"lorem ", b"ipsum ", b"dolor ", b"sit ", b"amet,\n", b"consectetur ", b"<p>", b"</p>\n"]
+    out = bytearray()
+    while len(out) < n:
+        out += rng.choice(words)
+    return bytes(out[:n])
+
+
+def h1_get(port, path, ae=None, inm=None, method=b"GET", ver=b"1.1", extra=()):
+    req = method + b" " + path + b" HTTP/" + ver + b"\r\nHost: c19.test\r\n"
+    if ae is not None:
+        req += b"Accept-Encoding: " + ae + b"\r\n"
+    if inm is not None:
+        req += b"If-None-Match: " + inm + b"\r\n"
+    for k, v in extra:
+        req += k + b": " + v + b"\r\n"
+    req += b"Connection: close\r\n\r\n"
+    data, closed = e2e.h1_exchange(port, [req], read_timeout=10.0)
+    if not data:
+        return None, "no-response"
+    try:
+        rs = e2e.parse_responses(data, head_for=[method == b"HEAD"], closed=closed)
+    except e2e.RespParseError as ex:
+        return None, "malformed-response: %s" % ex
+    rs = [r for r in rs if r["status"] >= 200]
+    if len(rs) != 1:
+        return None, "expected one response, got %d" % len(rs)
+    return rs[0], None
+
+
+class E2E:
+    """collects e2e observations, model predictions and violations for one run"""
+
+    def __init__(self, ctx):
+        self.ctx = ctx
+        self.lock = threading.Lock()
+        self.cases = []          # (model line, observed canonical string, replay dict)
+        self.n = 0
+        self.hits = 0
+
+    def violation(self, sig, what, replay):
+        with self.lock:
+            replay = dict(replay)
+            replay.update({"property": self.ctx.pid, "kind": "property-oracle", "correspondence": "e2e",
+                           "oracle_verdict": what})
+            self.ctx.violation("oracle:e2e:" + sig, what, replay, found=True)
+            self.hits += 1
+
+    def case(self, line, observed, replay, key):
+        with self.lock:
+            self.cases.append((line, observed, replay))
+            self.ctx.evaluations += 1
+            self.ctx.keys[key] += 1
+
+    def finish(self, name, canon_model=lambda s: s):
+        """run the model over the collected lines and compare"""
+        ctx = self.ctx
+        if not self.cases:
+            return
+        t0 = time.time()
+        lines = [c[0] for c in self.cases]
+        ndis = 0
+        if ctx.model_ok:
+            mod, rc, err = C.parallel_lines([C.ltmodel_path(), "deflate"], lines)
+            if rc != 0 or len(mod) != len(lines):
+                ctx.broken.append({"kind": "model-run", "names": ["deflate"], "log": err[-2000:]})
+            else:
+                first = None
+                for (line, obs, rep), mo in zip(self.cases, mod):
+                    if canon_model(mo) != obs:
+                        ndis += 1
+                        if first is None:
+                            first = (line, obs, canon_model(mo), rep)
+                if first and not self.hits:
+                    line, obs, mo, rep = first
+                    r = {"property": ctx.pid, "kind": "correspondence", "correspondence": name,
+                         "input": line[:4000], "impl_obs": obs[:4000], "model_obs": mo[:4000],
+                         "oracle_verdict": "no property-level failure found on the disagreeing inputs"}
+                    r.update(rep)
+                    ctx.violation("corr:%s" % name, "model/implementation correspondence %s broken (%d cases)"
+                                  % (name, ndis), r, found=False)
+        ctx.streams.append({"name": name, "cases": len(lines), "disagreements": ndis, "oracle_hits": self.hits,
+                            "wall_s": round(time.time() - t0, 2)})
+        for i in range(0, len(self.cases), max(1, len(self.cases) // 2)):
+            ctx.sample({"stream": name, "input": self.cases[i][0][:300], "impl": self.cases[i][1][:300]})
+
+
+def size_class(n):
+    for b in (0, 1, 256, 4096, 16384, 32768, 65536, 131072, 1048576):
+        if n <= b:
+            return "<=%d" % b
+    return ">1M"
+
+
+def e2e_matrix_one(E, bd, cname, files, ae_forms, tier_q):
+    """scenario A on one configuration"""
+    conf, (al, mi, mn, mx, cd) = E2E_CONFS[cname]
+    srv = e2e.Server(bd, conf, modules=("mod_deflate",))
+    for name, data in files:
+        with open(os.path.join(srv.docroot, name), "wb") as f:
+            f.write(data)
+    rep0 = {"scenario": "matrix", "config": cname, "conf": conf}
+    try:
+        with srv:
+            for name, data in files:
+                path = b"/" + name.encode()
+                ctype = CTYPE_OF[name[name.rindex("."):]]
+                r0, err = h1_get(srv.port, path)
+                rep = dict(rep0, file=name, size=len(data))
+                if err or r0["status"] != 200 or r0["body"] != data or e2e.hdr(r0, "content-encoding"):
+                    E.violation("identity", "identity request: wrong response (%s)" % (err or r0["status"]), rep)
+                    continue
+                etag0 = e2e.hdr(r0, "etag")
+                coded = {}
+                reqs = [(b"GET", b"1.1", ae) for ae in ae_forms] + [(b"GET", b"1.0", b"gzip"), (b"HEAD", b"1.1", b"gzip")]
+                if cd:
+                    reqs = reqs + [(b"GET", b"1.1", ae) for ae in ae_forms[:4]]      # again: cache hits
+                for method, ver, ae in reqs:
+                    r, err = h1_get(srv.port, path, ae=ae, method=method, ver=ver)
+                    rep = dict(rep0, file=name, size=len(data), accept_encoding=ae.decode("latin-1"),
+                               method=method.decode(), version=ver.decode())
+                    if err:
+                        E.violation("response", "coded request: %s" % err, rep)
+                        continue
+                    ce, vary, etag = e2e.hdr(r, "content-encoding"), e2e.hdr(r, "vary"), e2e.hdr(r, "etag")
+                    line = rs_line(al, mi, mn, mx, cd, 1 if method == b"HEAD" else 0, ae, None, 200, 9, ctype,
+                                   etag0, None, None, "f", "t0", len(data))
+                    o = lambda v: "~" if v is None else HX(v)
+                    if r["status"] != 200:
+                        E.violation("status", "status %d for a plain GET of an existing file" % r["status"], rep)
+                        continue
+                    if ce is not None:
+                        label = ce
+                        if method == b"HEAD":
+                            dec_ok = True
+                        else:
+                            dec, why = decode(label, r["body"])
+                            dec_ok = dec == data
+                            if not dec_ok:
+                                E.violation("decode", "body does not decode with the declared Content-Encoding to "
+                                            "the identity representation (%s)" % (why or "differs"), rep)
+                        m = listed_violation(label, ae, al)
+                        if m:
+                            E.violation("listed:" + m, "Content-Encoding: " + m, rep)
+                        if vary is None or not has_token(vary, b"Accept-Encoding"):
+                            E.violation("vary", "coded response without Vary: Accept-Encoding", rep)
+                        if etag0 and (etag == etag0 or etag is None):
+                            E.violation("etag", "coded response carries the identity ETag", rep)
+                        verdict = "enc:" + label.decode("latin-1")
+                        body = "dec" if dec_ok else "BAD"
+                        if method == b"GET" and ver == b"1.1":
+                            coded.setdefault(label, (ae, etag, r["body"]))
+                    else:
+                        verdict = "pass"
+                        body = "id" if (r["body"] == data or method == b"HEAD") else "BAD"
+                        if body == "BAD":
+                            E.violation("identity-body", "identity response body differs from the file", rep)
+                    obs = "%s 200 %s %s %s %s" % (verdict, o(etag), o(vary), o(ce), body)
+                    E.case(line, obs, rep, "e2e:matrix:%s:%s:%s:%s:%s" % (cname, name[0], size_class(len(data)),
+                                                                           method.decode() + ver.decode(), verdict))
+                # revalidation with the coded tag; ranges of the coded representation
+                for label, (ae, etag, cbody) in coded.items():
+                    if etag is None:
+                        continue
+                    r, err = h1_get(srv.port, path, ae=ae, inm=etag)
+                    rep = dict(rep0, file=name, size=len(data), accept_encoding=ae.decode("latin-1"),
+                               if_none_match=etag.decode("latin-1"))
+                    if err:
+                        E.violation("response", "revalidation: %s" % err, rep)
+                        continue
+                    if r["status"] != 304:
+                        E.violation("revalidate", "revalidation with the coded ETag yields %d, not 304" % r["status"], rep)
+                    line = rs_line(al, mi, mn, mx, cd, 0, ae, etag, 200, 9, ctype, etag0, None, None, "f", "t0", len(data))
+                    o = lambda v: "~" if v is None else HX(v)
+                    v = {304: "nm", 412: "pf"}.get(r["status"], "enc:?" if e2e.hdr(r, "content-encoding") else "pass")
+                    obs = "%s %d %s %s %s %s" % (v, r["status"], o(e2e.hdr(r, "etag")), o(e2e.hdr(r, "vary")),
+                                                 o(e2e.hdr(r, "content-encoding")), "empty" if not r["body"] else "body")
+                    E.case(line, obs, rep, "e2e:reval:%s:%s:%d" % (cname, label.decode(), r["status"]))
+                    if len(cbody) > 20:
+                        r, err = h1_get(srv.port, path, ae=ae, extra=[(b"Range", b"bytes=3-12")])
+                        if err:
+                            E.violation("response", "range request: %s" % err, rep)
+                        elif r["status"] == 206 and e2e.hdr(r, "content-encoding") == label:
+                            if r["body"] != cbody[3:13]:
+                                E.violation("range", "206 of a coded response is not a slice of the coded representation", rep)
+                            with E.lock:
+                                E.ctx.keys["e2e:range:%s:206-coded" % cname] += 1
+                        elif r["status"] == 206 and e2e.hdr(r, "content-encoding") is None:
+                            if r["body"] != data[3:13]:
+                                E.violation("range", "206 identity slice differs from the file", rep)
+                        elif r["status"] == 200:
+                            pass
+                        else:
+                            E.violation("range", "unexpected answer %d to a range request" % r["status"], rep)
+            if cd:
+                e2e_check_cache_dir(E, srv, dict(files), rep0)
+        sr = srv.sanitizer_report()
+        if sr:
+            E.violation("sanitizer", "sanitizer / assertion report from the server", dict(rep0, log=sr[-3000:]))
+    finally:
+        shutil.rmtree(srv.root, ignore_errors=True)
+
+
+def e2e_list_cache(srv):
+    """[(relative source name, etag, label, pid or None, bytes)] for every file in the cache directory"""
+    out = []
+    base = os.path.join(srv.root, "cache") + srv.docroot
+    for root, _, fs in os.walk(os.path.join(srv.root, "cache")):
+        for fn in fs:
+            p = os.path.join(root, fn)
+            m = re.fullmatch(re.escape(base) + r"/(.+?)-(\d+)-(x-gzip|gzip|deflate)(?:\.(\d+))?", p)
+            with open(p, "rb") as f:
+                data = f.read()
+            if not m:
+                out.append((p, None, None, None, data))
+            else:
+                out.append((m.group(1), m.group(2), m.group(3), int(m.group(4)) if m.group(4) else None, data))
+    return out
+
+
+def e2e_check_cache_dir(E, srv, files, rep0):
+    """every published file must be a complete coded form of the current content of its source"""
+    for name, etag, label, pid, data in e2e_list_cache(srv):
+        rep = dict(rep0, cache_file=name, etag=etag, label=label)
+        if etag is None:
+            E.violation("cache-name", "unexpected file in the cache directory", rep)
+        elif pid is None:
+            dec, why = decode(label, data)
+            if dec is None or dec != files.get(name):
+                E.violation("cache-file", "published cache file is not the complete coded form of its source (%s)"
+                            % (why or "differs"), rep)
+            with E.lock:
+                E.ctx.keys["e2e:cache-file:%s:%s" % (label, size_class(len(files.get(name, b""))))] += 1
+
+
+# ---------------------------------------------------------------- scenario B: modification histories
+T0_NS = 1700000000 * 10 ** 9
+
+
+def e2e_history_batch(E, bd, histories):
+    """each history: list of ('M', v, content) / ('R', label); one file per history on one server"""
+    conf, _ = E2E_CONFS["cache"]
+    srv = e2e.Server(bd, conf, modules=("mod_deflate",))
+    rep0 = {"scenario": "history", "config": "cache", "conf": conf}
+    try:
+        with srv:
+            for hi, (hist, collide) in enumerate(histories):
+                name = "h%d.txt" % hi
+                fpath = os.path.join(srv.docroot, name)
+                path = b"/" + name.encode()
+                ops, obs = [], []
+                etag2v = {}
+                cur = None
+                bad = False
+                for op in hist:
+                    if op[0] == "M":
+                        _, v, content = op
+                        with open(fpath, "r+b" if os.path.exists(fpath) else "wb") as f:     # in place: same inode
+                            f.truncate(0)
+                            f.write(content)
+                        os.utime(fpath, ns=(T0_NS + v * 10 ** 9, T0_NS + v * 10 ** 9))
+                        cur = content
+                        r, err = h1_get(srv.port, path)
+                        if err or r["status"] != 200:
+                            bad = True
+                            break
+                        et = (e2e.hdr(r, "etag") or b"").decode().strip('"')
+                        vt = "%d.%d" % (v, len(content))
+                        if etag2v.get(et, vt) != vt:
+                            bad = True       # 32-bit ETag hash collision between distinct validators
+                            break
+                        etag2v[et] = vt
+                        ops.append("M:0:%d:%s" % (v, HX(content)))
+                        obs.append("q")
+                    else:
+                        label = op[1]
+                        r, err = h1_get(srv.port, path, ae=label.encode())
+                        rep = dict(rep0, history=[(o[0], o[1]) if o[0] == "R" else (o[0], o[1], len(o[2])) for o in hist])
+                        ops.append("R:0:%s:1:c1o1wro" % label)
+                        if err or r["status"] != 200 or e2e.hdr(r, "content-encoding") != label.encode():
+                            E.violation("history-response", "history: unexpected response (%s)" %
+                                        (err or "%d %r" % (r["status"], e2e.hdr(r, "content-encoding"))), rep)
+                            obs.append("?")
+                            continue
+                        dec, why = decode(label, r["body"])
+                        if dec is None:
+                            E.violation("history-decode", "history: body does not decode (%s)" % why, rep)
+                            obs.append("S:?:%s:BAD" % label)
+                            continue
+                        if dec != cur and not collide:
+                            E.violation("stale", "stale or wrong content served after the source file changed "
+                                        "(cache-dir configured)", rep)
+                        obs.append("S:?:%s:d%s" % (label, HX(dec)))
+                if bad:
+                    continue
+                lst = []
+                for nm, etag, label, pid, data in e2e_list_cache(srv):
+                    if nm != name:
+                        continue
+                    if pid is None:
+                        dec, why = decode(label, data)
+                        lst.append("F:0:%s:%s:%s" % (etag2v.get(etag, "?"), label, "d" + HX(dec) if dec is not None else "BAD(%s)" % why))
+                    else:
+                        lst.append("T:0:%s:%s:pid:part" % (etag2v.get(etag, "?"), label))
+                E.case("cache " + " ".join(ops), " ".join(obs + ["|"] + sorted(lst)),
+                       dict(rep0, history_ops=len(hist), collide=collide),
+                       "e2e:history:%s:mods%d:reqs%d" % ("collide" if collide else "distinct",
+                                                          min(4, sum(1 for o in hist if o[0] == "M")),
+                                                          min(6, sum(1 for o in hist if o[0] == "R"))))
+        sr = srv.sanitizer_report()
+        if sr:
+            E.violation("sanitizer", "sanitizer / assertion report from the server", dict(rep0, log=sr[-3000:]))
+    finally:
+        shutil.rmtree(srv.root, ignore_errors=True)
+
+
+def canon_history_model(mo):
+    """model output of a `cache` line -> the form observable end-to-end (hit flag and tmp sizes hidden)"""
+    t = mo.split(" ")
+    out = []
+    for x in t:
+        if x.startswith("S:"):
+            p = x.split(":")
+            p[1] = "?"
+            x = ":".join(p)
+        elif x.startswith("T:"):
+            p = x.split(":")
+            x = ":".join(p[:4] + ["pid", "full:" + p[6] if p[5] == "full" else "part"])
+        out.append(x)
+    if "|" in out:
+        i = out.index("|")
+        out = out[:i + 1] + sorted(out[i + 1:])
+    return " ".join(out)
+
+
+def gen_e2e_histories(rng, n):
+    hs = []
+    for i in range(n):
+        collide = (i % 6 == 5)
+        hist = []
+        v = 0
+        size = rng.choice([300, 1000, 5000, 40000, 70000])
+        cur = None
+        for _ in range(rng.randint(4, 9)):
+            if cur is None or rng.random() < 0.35:
+                same_size = cur is not None and rng.random() < 0.6
+                if collide and cur is not None and rng.random() < 0.7:
+                    c = e2e_content(rng, "t", len(cur))        # same size, same mtime: validator unchanged
+                    if c == cur:
+                        c = b"X" + cur[1:]
+                else:
+                    v += 1
+                    c = e2e_content(rng, rng.choice("ttr"), len(cur) if same_size else size + rng.randint(0, 50))
+                cur = c
+                hist.append(("M", v, c))
+            else:
+                hist.append(("R", rng.choice(["gzip", "gzip", "deflate", "x-gzip"])))
+        hs.append((hist, collide))
+    return hs
+
+
+# ---------------------------------------------------------------- scenario C: cache-writer faults (strace)
+FAULTS = {
+    # name: (strace inject expression, model write events, model rename event, server dies)
+    "enospc-write1": ("write:error=ENOSPC:when=1", "f", "o", False),
+    "enospc-write2": ("write:error=ENOSPC:when=2", "k131072f", "o", False),
+    "kill-write1": ("write:signal=KILL:when=1", "x", "o", True),
+    "kill-write2": ("write:signal=KILL:when=2", "k131072x", "o", True),
+    "rename-fails": ("rename:error=EACCES:when=1", "", "f", False),
+    "kill-rename": ("rename:signal=KILL:when=1", "", "b", True),
+}
+
+
+def e2e_fault_one(E, bd, fname, label, seed):
+    import random
+    inject, wev, rev, dies = FAULTS[fname]
+    conf, _ = E2E_CONFS["cache"]
+    rng = random.Random(seed)
+    data = rng.randbytes(200000)                 # incompressible: the coded form needs two write() calls
+    srv = e2e.Server(bd, conf, modules=("mod_deflate",))
+    with open(os.path.join(srv.docroot, "a.txt"), "wb") as f:
+        f.write(data)
+    rep0 = {"scenario": "fault", "fault": fname, "inject": inject, "label": label, "conf": conf}
+    obs = ["q"]
+    pids = []
+    fired = False
+    try:
+        srv.start()
+        r0, err = h1_get(srv.port, b"/a.txt")
+        if err or r0["status"] != 200:
+            E.violation("fault-setup", "fault scenario: identity request failed", rep0)
+            return
+        etag = e2e.hdr(r0, "etag").decode().strip('"')
+        pid = srv.proc.pid
+        pids.append(pid)
+        tmp = "%s/cache%s/a.txt-%s-%s.%d" % (srv.root, srv.docroot, etag, label, pid)
+        slog = os.path.join(srv.root, "strace.out")
+        st = subprocess.Popen(["strace", "-f", "-p", str(pid), "-o", slog, "-e",
+                               "trace=write,rename,renameat,renameat2", "-P", tmp, "-e", "inject=" + inject],
+                              stdout=subprocess.PIPE, stderr=subprocess.STDOUT)
+        t_end = time.time() + 5
+        attached = False
+        while time.time() < t_end and st.poll() is None:
+            time.sleep(0.05)
+            try:
+                tracer = [l for l in open("/proc/%d/status" % pid) if l.startswith("TracerPid:")][0].split()[1]
+            except (OSError, IndexError):
+                break
+            if tracer != "0":
+                attached = True
+                break
+        if not attached:
+            st.kill()
+            with E.lock:
+                E.ctx.dist["e2e:fault:strace-attach-failed"] += 1
+            return
+        r, err = h1_get(srv.port, b"/a.txt", ae=label.encode())
+        time.sleep(0.2)
+        if st.poll() is None:
+            st.send_signal(signal.SIGINT)
+        try:
+            st.communicate(timeout=10)
+        except subprocess.TimeoutExpired:
+            st.kill()
+        try:
+            sout = open(slog, errors="replace").read()
+        except OSError:
+            sout = ""
+        fired = "INJECTED" in sout or "killed by SIGKILL" in sout
+        if not fired:
+            with E.lock:
+                E.ctx.dist["e2e:fault:not-fired"] += 1
+            return
+        alive = srv.alive() and srv.proc.poll() is None
+        if r is not None:
+            # a response under a failed writer must still be right
+            if r["status"] == 200:
+                ce = e2e.hdr(r, "content-encoding")
+                dec = decode(ce, r["body"])[0] if ce else r["body"]
+                if dec != data:
+                    E.violation("fault-served", "truncated or wrong content served while the cache writer failed", rep0)
+                obs.append("S:?:%s:d%s" % (label, HX(dec or b"")))
+            else:
+                obs.append("E")
+        else:
+            obs.append("X" if not alive else "E")
+        if not alive:
+            srv.stop()
+            srv2 = e2e.Server(bd, conf, root=srv.root, modules=("mod_deflate",))
+            srv2.start()
+        else:
+            srv2 = srv
+        pids.append(srv2.proc.pid)
+        try:
+            for k in range(2):
+                r, err = h1_get(srv2.port, b"/a.txt", ae=label.encode())
+                if err or r["status"] != 200 or e2e.hdr(r, "content-encoding") != label.encode():
+                    E.violation("fault-after", "request after an interrupted compression failed (%s)" %
+                                (err or r["status"]), rep0)
+                    obs.append("?")
+                    continue
+                dec, why = decode(label, r["body"])
+                if dec != data:
+                    E.violation("fault-stale", "stale or truncated content served after an interrupted "
+                                "compression (%s)" % (why or "differs"), rep0)
+                obs.append("S:?:%s:%s" % (label, "d" + HX(dec) if dec is not None else "BAD(%s)" % why))
+            lst = []
+            for nm, et, lab, p_, cdata in e2e_list_cache(srv2):
+                if et is None:
+                    lst.append("?")
+                elif p_ is None:
+                    dec, why = decode(lab, cdata)
+                    if dec != data:
+                        E.violation("fault-cache-file", "published cache file is not complete after an interrupted "
+                                    "compression", rep0)
+                    lst.append("F:0:1.%d:%s:%s" % (len(data), lab, "d" + HX(dec) if dec is not None else "BAD(%s)" % why))
+                else:
+                    dec, why = decode(lab, cdata)
+                    lst.append("T:0:1.%d:%s:pid:%s" % (len(data), lab, "full:d" + HX(dec) if dec is not None else "part"))
+            sr = srv2.sanitizer_report()
+            if sr:
+                E.violation("sanitizer", "sanitizer / assertion report from the server", dict(rep0, log=sr[-3000:]))
+        finally:
+            if srv2 is not srv:
+                srv2.stop()
+        pid2 = 1 if alive else 2
+        line = "cache M:0:1:%s R:0:%s:1:c1o1w%sr%s R:0:%s:%d:c1o1wro R:0:%s:%d:c1o1wro" % (
+            HX(data), label, wev, rev, label, pid2, label, pid2)
+        E.case(line, " ".join(obs + ["|"] + sorted(lst)), rep0, "e2e:fault:%s:%s:%s" % (fname, label, obs[1][0]))
+        with E.lock:
+            E.ctx.faults_fired += 1
+    finally:
+        srv.stop()
+        shutil.rmtree(srv.root, ignore_errors=True)
+
+
 def run_e2e(ctx):
-    pass
+    bd, err = e2e.build_server()
+    if bd is None:
+        ctx.broken.append({"kind": "server-build", "names": ["lighttpd"], "log": (err or "")[-3000:]})
+        return
+    rng = ctx.rng
+    sizes = SIZES_Q if ctx.quick else SIZES_T
+    files = []
+    for n in sizes:
+        for kind in ("t", "r"):
+            files.append(("%s%d.txt" % (kind, n), e2e_content(rng, kind, n)))
+    for n in (300, 70000):
+        files.append(("t%d.html" % n, e2e_content(rng, "t", n)))
+        files.append(("t%d.bin" % n, e2e_content(rng, "t", n)))
+        files.append(("z%d.css" % n, e2e_content(rng, "z", n)))
+    ae_forms = list(AE_Q)
+    for _ in range(3 if ctx.quick else 40):
+        v = gen_ae_value(rng).replace(b"\t", b" ").replace(b"\0", b"")
+        if v.strip():
+            ae_forms.append(v)
+    confs = ["plain", "cache", "limits"] + ([] if ctx.quick else ["all"])
+    EA = E2E(ctx)
+    EB = E2E(ctx)
+    EC = E2E(ctx)
+    hists = gen_e2e_histories(rng, 24 if ctx.quick else 160)
+    nb = 4 if ctx.quick else 8
+    batches = [hists[i::nb] for i in range(nb)]
+    faults = [(f, lab) for f in FAULTS for lab in (["gzip"] if ctx.quick else ["gzip", "deflate", "x-gzip"])]
+    have_strace = shutil.which("strace") is not None
+    if not have_strace:
+        ctx.notes.append("strace not available: cache-writer fault scenarios (e2e) skipped")
+    jobs = []
+    with ThreadPoolExecutor(C.NCPU) as ex:
+        for cname in confs:
+            # split the files of one configuration over several servers
+            parts = 3 if ctx.quick else 6
+            for k in range(parts):
+                jobs.append(ex.submit(e2e_matrix_one, EA, bd, cname, files[k::parts], ae_forms, ctx.quick))
+        for b in batches:
+            jobs.append(ex.submit(e2e_history_batch, EB, bd, b))
+        if have_strace:
+            for i, (f, lab) in enumerate(faults):
+                jobs.append(ex.submit(e2e_fault_one, EC, bd, f, lab, ctx.seed * 1000 + i))
+        for j in jobs:
+            j.result()
+    drop_cl = lambda mo: " ".join(mo.split(" ")[:5] + mo.split(" ")[6:]) if len(mo.split(" ")) == 7 else mo
+
+    def canon_matrix_model(mo):
+        t = mo.split(" ")
+        if len(t) != 7:
+            return mo
+        v = t[0].split(":")
+        t[0] = ":".join(v[:2])              # cache flag is checked through the cache directory listing
+        return " ".join(t[:5] + t[6:])
+    EA.finish("e2e-matrix(lighttpd)", canon_matrix_model)
+    EB.finish("e2e-history(lighttpd)", canon_history_model)
+    EC.finish("e2e-faults(lighttpd+strace)", canon_history_model)
+    ctx.notes.append("e2e: %d file sizes x {text, random} x %d Accept-Encoding forms x %d configurations; "
+                     "%d modification histories; %d strace fault scenarios (fired: %d)"
+                     % (len(sizes), len(ae_forms), len(confs), len(hists), len(faults) if have_strace else 0,
+                        ctx.faults_fired))
 
 
 def replay_e2e(ctx, rep):
+    """e2e replays re-run the whole (seeded) end-to-end stream"""
+    class Shim:
+        pass
+    before = len(ctx.violations)
+    run_e2e(ctx)
+    if len(ctx.violations) > before:
+        for sig, what, r, found in ctx.violations[before:]:
+            print("violation:", what)
+        print("VIOLATION property=%s replay=(replayed)" % ctx.pid)
+        return 1
     return 0
 
 
@@ -756,6 +1397,8 @@ def run_inproc(ctx):
         ctx.differential("rs-revalidate(h_deflate)", [exe], "deflate", rv, oracle_reval,
                          lambda l, o: "rv:" + classify_rs(l, o), canon=canon)
     ctx.differential("cache(h_deflate)", [exe], "deflate", gen_cache(ctx), oracle_cache, classify_cache, canon=canon)
+    ctx.differential("names(h_deflate)", [exe], "deflate", gen_names(ctx), oracle_names,
+                     lambda l, o: "name:" + ("ok" if " " in o else o), canon=canon)
 
 
 def run(ctx):
